@@ -111,6 +111,30 @@ func c13PartCase(out *zzverif.Out, kind int, s string) {
 	}
 }
 
+
+// c13UTF8Sample calls f with valid UTF-8 encodings (2, 3 and 4 bytes) of code points chosen per LOW BYTE class:
+// for every value 0..255 of cp&0xFF and every encoded length, the smallest such code point and a seeded random one
+// (surrogates skipped).  A decoder that truncates a rune to a byte is sensitive to exactly this class.
+func c13UTF8Sample(r *zzverif.Rng, f func(ch string, low, size int)) {
+	ranges := [][2]int{{0x80, 0x7FF}, {0x800, 0xFFFF}, {0x10000, 0x10FFFF}}
+	for low := 0; low < 256; low++ {
+		for ri, rg := range ranges {
+			first := rg[0] - rg[0]%256 + low
+			if first < rg[0] {
+				first += 256
+			}
+			span := (rg[1] - first) / 256
+			cps := []int{first, first + 256*r.Intn(span+1)}
+			for _, cp := range cps {
+				if cp >= 0xD800 && cp <= 0xDFFF {
+					cp += 0x800
+				}
+				f(string(rune(cp)), low, ri+2)
+			}
+		}
+	}
+}
+
 func c13Replay(out *zzverif.Out, line string) {
 	f := strings.Fields(line)
 	switch {
@@ -143,6 +167,27 @@ func TestVerifC13(t *testing.T) {
 			}
 		}
 	}
+	// witnesses derived by the check from a failed regenerated-table Tie (see vlib/checks/c13.py)
+	if b, err := os.ReadFile(os.Getenv("VERIF_WITNESS")); err == nil {
+		for _, l := range strings.Split(string(b), "\n") {
+			if l = strings.TrimSpace(l); l != "" && !strings.HasPrefix(l, "#") {
+				c13Replay(out, l)
+				out.Count("tie_witness")
+			}
+		}
+	}
+	// valid multi-byte characters, per low-byte class
+	c13UTF8Sample(root.Fork(), func(ch string, low, size int) {
+		for kind := 0; kind < 5; kind++ {
+			c13PartCase(out, kind, ch)
+			c13PartCase(out, kind, "a"+ch)
+			c13PartCase(out, kind, ch+"a")
+		}
+		c13NameCase(out, "h/n/"+ch+":t")
+		c13NameCase(out, "h"+ch+"/n/m:t"+ch)
+		c13PathCase(out, "h/n/"+ch+"/t")
+		out.Count(fmt.Sprintf("utf8_sample_%dbyte", size))
+	})
 	// exhaustive short strings over the class alphabet
 	maxLen := zzverif.EnvInt("VERIF_EXH", 3)
 	zzverif.C13Exhaustive(zzverif.C13Alphabet, maxLen, func(s string) {
@@ -204,18 +249,36 @@ func TestVerifC13Table(t *testing.T) {
 			}
 		}
 		product := 1
-		for a := 0; a < 256; a++ {
-			for b := 0; b < 256; b++ {
-				if isValidPart(k, string([]byte{byte(a), byte(b)})) != (inFirst[a] && inRest[b]) {
-					product = 0
+		// probes beyond 1 and 2 bytes: the acceptance of ANY string must be "first byte in the first set and every
+		// later byte in the rest set"; strings for which the real function says otherwise are emitted as `odd`
+		// witnesses (and clear the product flag)
+		var odd []string
+		probe := func(s string) {
+			want := len(s) > 0 && inFirst[s[0]]
+			for i := 1; i < len(s) && want; i++ {
+				want = inRest[s[i]]
+			}
+			if len(s) > 0 && isValidPart(k, s) != want {
+				product = 0
+				if len(odd) < 6 {
+					odd = append(odd, zzverif.Hex([]byte(s)))
 				}
 			}
 		}
-		// third position behaves like the second (spot check of position independence)
-		for b := 0; b < 256; b++ {
-			if isValidPart(k, string([]byte{'a', 'a', byte(b)})) != inRest[b] || isValidPart(k, string([]byte{'a', byte(b), 'a'})) != inRest[b] {
-				product = 0
+		for a := 0; a < 256; a++ {
+			for b := 0; b < 256; b++ {
+				probe(string([]byte{byte(a), byte(b)}))
 			}
+		}
+		c13UTF8Sample(zzverif.NewRng(7), func(ch string, low, size int) {
+			probe(ch)
+			probe("a" + ch)
+			probe(ch + "a")
+			probe("a" + ch + "a")
+		})
+		for b := 0; b < 256; b++ {
+			probe(string([]byte{'a', 'a', byte(b)}))
+			probe(string([]byte{'a', byte(b), 'a'}))
 		}
 		lo, hi, contiguous := -1, -1, 1
 		for n := 0; n <= 1200; n++ {
@@ -232,5 +295,6 @@ func TestVerifC13Table(t *testing.T) {
 		fmt.Fprintf(f, "M %d first %s\n", kind, strings.Join(first, " "))
 		fmt.Fprintf(f, "M %d rest %s\n", kind, strings.Join(rest, " "))
 		fmt.Fprintf(f, "M %d len %d %d %d %d\n", kind, lo, hi, contiguous, product)
+		fmt.Fprintf(f, "M %d odd %s\n", kind, strings.Join(odd, " "))
 	}
 }
